@@ -22,6 +22,7 @@ struct Basic {
   bool is_complex() const { return im != 0; }  /* Number::is_complex of the numeric coefficient */
   bool is_positive() const { return im == 0 && re > 0; }
   bool is_negative() const { return im == 0 && re < 0; }
+  bool is_zero() const { return im == 0 && re == 0; }
 };
 typedef Basic *RCPBasic;
 struct vec_basic { RCPBasic d[MAXT + 1]; unsigned n; unsigned size() const { return n; } RCPBasic at(unsigned k) const { return d[k <= MAXT ? k : 0]; } };
@@ -104,12 +105,14 @@ extern "C" void h_real_add(void)
 }
 extern "C" void h_positive_add(void)
 {
-  /* sum coef + cf0*t0 + cf1*t1 with real numeric coefficients cf != 0; Add::is_canonical: >= 1 term, >= 2 when coef is 0 */
+  /* sum coef + cf0*t0 + cf1*t1 with numeric coefficients of any kind (real or complex: x + I has the coefficient I), cf != 0;
+     Add::is_canonical: >= 1 term, >= 2 when coef is 0 */
   any_child(c0, -3, 3); any_child(ch0, -3, 3); any_child(ch1, -3, 3); any_child(cf0, -3, 3); any_child(cf1, -3, 3);
-  __CPROVER_assume(c0.im == 0 && cf0.im == 0 && cf1.im == 0 && cf0.re != 0 && cf1.re != 0);
-  Add x; x.coef = &c0; x.dict.n = nondet_uint(); __CPROVER_assume(1 <= x.dict.n && x.dict.n <= MAXT); __CPROVER_assume(c0.re != 0 || x.dict.n >= 2);
+  __CPROVER_assume((cf0.re != 0 || cf0.im != 0) && (cf1.re != 0 || cf1.im != 0));
+  Add x; x.coef = &c0; x.dict.n = nondet_uint(); __CPROVER_assume(1 <= x.dict.n && x.dict.n <= MAXT); __CPROVER_assume(c0.re != 0 || c0.im != 0 || x.dict.n >= 2);
   x.dict.e[0].first = &ch0; x.dict.e[0].second = &cf0; x.dict.e[1].first = &ch1; x.dict.e[1].second = &cf1;
-  int sr = c0.re + cf0.re * ch0.re + (x.dict.n == 2 ? cf1.re * ch1.re : 0), si = cf0.re * ch0.im + (x.dict.n == 2 ? cf1.re * ch1.im : 0);
+  int sr = c0.re + (cf0.re * ch0.re - cf0.im * ch0.im), si = c0.im + (cf0.re * ch0.im + cf0.im * ch0.re);
+  if (x.dict.n == 2) { sr += cf1.re * ch1.re - cf1.im * ch1.im; si += cf1.re * ch1.im + cf1.im * ch1.re; }
   bool positive = (si == 0 && sr > 0);
   PositiveVisitor v; v.assumptions_ = 0; v.is_positive_ = tribool::indeterminate; verif_may_throw = false;
   v.bvisit_Add(x);
